@@ -129,6 +129,8 @@ class Engine:
     self._fresh = 0
     self._model = None
     self._forced = None
+    self.falsify_first = False
+    self.stop_path_on_violation = False
     self._forced_sites = []
     self._sites = []
     self._guess = []
@@ -397,6 +399,17 @@ class Engine:
       self.stats.discharged += 1
       return True
     neg = z3.Not(f)
+    if self.falsify_first:
+      vals = self.random_falsify(neg, seed=self._check_index)
+      if vals is not None:
+        v = Violation(name, vals, info() if callable(info) else info,
+                      list(self._trace))
+        v.check_index = self._check_index
+        v.sites = list(self._sites)
+        self.violations.append(v)
+        if self.stop_path_on_violation:
+          raise _AbortPath()
+        return False
     if only_facts is not None or tactic is not None:
       tactics = tactic if isinstance(tactic, (list, tuple)) else [tactic]
       r, m = 'unknown', None
@@ -430,7 +443,55 @@ class Engine:
     v.check_index = self._check_index
     v.sites = list(self._sites)
     self.violations.append(v)
+    if self.stop_path_on_violation:
+      raise _AbortPath()
     return False
+
+  def random_falsify(self, neg, tries=64, seed=0):
+    """Cheap witness search before the solver: random float32/int values for
+    the registered inputs; a hit must satisfy the whole path condition and
+    `neg`.  Only ever used to FIND a counterexample faster - "holds" is always
+    the solver's unsat."""
+    import random
+    import struct
+    rng = random.Random(seed)
+    names = list(self.inputs)
+    if not names:
+      return None
+    for _ in range(tries):
+      sub = []
+      base = {}
+      for n in names:
+        v = self.inputs[n]
+        srt = v.sort()
+        if z3.is_fp_sort(srt) and srt.ebits() == 8:
+          mag = rng.choice([1e-3, 0.1, 1.0, 1.0, 10.0, 300.0])
+          x = rng.choice([0.0, rng.uniform(-1, 1), rng.uniform(-1, 1),
+                          rng.uniform(0, 1), rng.uniform(-1, 0)]) * mag
+          base[n] = x
+        elif z3.is_bv_sort(srt):
+          sub.append((v, z3.BitVecVal(rng.getrandbits(srt.size()), srt.size())))
+        elif srt == z3.IntSort():
+          sub.append((v, z3.IntVal(rng.randint(-4, 300))))
+        elif srt == z3.BoolSort():
+          sub.append((v, z3.BoolVal(rng.random() < 0.5)))
+      # keep min_* <= max_* pairs ordered
+      for n in list(base):
+        if n.startswith('min_') and ('max_' + n[4:]) in base:
+          a, b = base[n], base['max_' + n[4:]]
+          base[n], base['max_' + n[4:]] = min(a, b), max(a, b)
+      for n, x in base.items():
+        bits = struct.unpack('<I', struct.pack('<f', x))[0]
+        sub.append((self.inputs[n],
+                    z3.fpBVToFP(z3.BitVecVal(bits, 32), z3.Float32())))
+      try:
+        ok = z3.simplify(z3.substitute(z3.And(*(self._pc + [neg])), *sub))
+      except z3.Z3Exception:
+        return None
+      if z3.is_true(ok):
+        return {k: z3.simplify(z3.substitute(self.inputs[k], *sub))
+                for k in names}
+    return None
 
   def model_values(self, m):
     vals = {}
